@@ -224,6 +224,23 @@ func derefsAs(pk *packages.Package, decls map[*types.Func]*ast.FuncDecl, fn *typ
 			if bound == nil {
 				continue
 			}
+			// an arm that compares its pointer with nil knows about typed nils
+			nilAware := false
+			for _, st := range cc.Body {
+				ast.Inspect(st, func(m ast.Node) bool {
+					if be, ok := m.(*ast.BinaryExpr); ok && (be.Op == token.EQL || be.Op == token.NEQ) {
+						for _, pair := range [][2]ast.Expr{{be.X, be.Y}, {be.Y, be.X}} {
+							if id, ok := ast.Unparen(pair[0]).(*ast.Ident); ok && info.Uses[id] == bound && isNilIdent(info, pair[1]) {
+								nilAware = true
+							}
+						}
+					}
+					return !nilAware
+				})
+			}
+			if nilAware {
+				continue
+			}
 			for _, st := range cc.Body {
 				ast.Inspect(st, func(m ast.Node) bool {
 					switch x := m.(type) {
